@@ -264,11 +264,12 @@ impl<T: ?Sized, R: RawRwLock> RwLock<T, R> {
 				|| self.raw_unlock_read(),
 			);
 
-			// ensures the key is held long enough
-			drop(key);
-
 			// safety: the mutex is still locked
 			self.raw_unlock_read();
+
+			// the key is given up only after the lock has been released, so that it
+			// cannot be obtained again while this thread still holds the lock
+			drop(key);
 
 			r
 		}
@@ -291,11 +292,12 @@ impl<T: ?Sized, R: RawRwLock> RwLock<T, R> {
 				|| self.raw_unlock_read(),
 			);
 
-			// ensures the key is held long enough
-			drop(key);
-
 			// safety: the mutex is still locked
 			self.raw_unlock_read();
+
+			// the key is given up only after the lock has been released, so that it
+			// cannot be obtained again while this thread still holds the lock
+			drop(key);
 
 			Ok(r)
 		}
@@ -312,11 +314,12 @@ impl<T: ?Sized, R: RawRwLock> RwLock<T, R> {
 				|| self.raw_unlock_write(),
 			);
 
-			// ensures the key is held long enough
-			drop(key);
-
 			// safety: the mutex is still locked
 			self.raw_unlock_write();
+
+			// the key is given up only after the lock has been released, so that it
+			// cannot be obtained again while this thread still holds the lock
+			drop(key);
 
 			r
 		}
@@ -339,11 +342,12 @@ impl<T: ?Sized, R: RawRwLock> RwLock<T, R> {
 				|| self.raw_unlock_write(),
 			);
 
-			// ensures the key is held long enough
-			drop(key);
-
 			// safety: the mutex is still locked
 			self.raw_unlock_write();
+
+			// the key is given up only after the lock has been released, so that it
+			// cannot be obtained again while this thread still holds the lock
+			drop(key);
 
 			Ok(r)
 		}
